@@ -1290,7 +1290,7 @@ fn c12(sim: &mut Sim, d: &Delivery) -> u64 {
     }
     // longest prefix of rf whose version fields are all in S (located through rf's own
     // decomposition of the buffer: if that is broken, C02 reports it, not this check)
-    if c02_relation(d.buf, &all, &rf).is_err() || c02_relation(d.buf, &s_set, &r).is_err() {
+    if c02_relation(d.buf, &all, &rf).is_err() {
         sim.stats.probe("not_judged_result_is_not_a_decomposition");
         return outcome_class(&r);
     }
